@@ -79,6 +79,10 @@ type RestAgent struct {
 	// map UUIDs to EIDs and received bundles
 	clients sync.Map // uuid[string] -> bpv7.EndpointID
 	mailbox sync.Map // uuid[string] -> []bpv7.Bundle
+
+	// mailboxMutex serialises the read-modify-write cycles on a client's mailbox: appending an arriving bundle in
+	// the handler's goroutine and handing out / clearing the inbox in an HTTP handler's goroutine.
+	mailboxMutex sync.Mutex
 }
 
 // NewRestAgent creates a new RESTful Application Agent.
@@ -130,6 +134,8 @@ func (ra *RestAgent) receiveBundleMessage(msg BundleMessage) {
 	})
 
 	for _, uuid := range uuids {
+		ra.mailboxMutex.Lock()
+
 		var bundles []bpv7.Bundle
 		if val, ok := ra.mailbox.Load(uuid); !ok {
 			bundles = []bpv7.Bundle{msg.Bundle}
@@ -139,6 +145,8 @@ func (ra *RestAgent) receiveBundleMessage(msg BundleMessage) {
 		verifSchedPoint("rest/deliver-loaded")
 
 		ra.mailbox.Store(uuid, bundles)
+
+		ra.mailboxMutex.Unlock()
 
 		log.WithFields(log.Fields{
 			"bundle": msg.Bundle.ID().String(),
@@ -214,6 +222,8 @@ func (ra *RestAgent) handleFetch(w http.ResponseWriter, r *http.Request) {
 		fetchResponse RestFetchResponse
 	)
 
+	// A bundle arriving between reading and clearing the inbox must not get lost.
+	ra.mailboxMutex.Lock()
 	if jsonErr := json.NewDecoder(r.Body).Decode(&fetchRequest); jsonErr != nil {
 		log.WithError(jsonErr).Warn("Failed to parse REST fetch request")
 		fetchResponse.Error = jsonErr.Error()
@@ -228,6 +238,7 @@ func (ra *RestAgent) handleFetch(w http.ResponseWriter, r *http.Request) {
 		log.WithField("uuid", fetchRequest.UUID).Debug("REST client has no new bundles to fetch")
 		fetchResponse.Bundles = make([]bpv7.Bundle, 0)
 	}
+	ra.mailboxMutex.Unlock()
 
 	w.Header().Set("Content-Type", "application/json")
 	if err := json.NewEncoder(w).Encode(fetchResponse); err != nil {
